@@ -359,7 +359,7 @@ def run(rep):
         if edges:
             replay_edges(rep, edges, inits, rng)
     # 3.  random scripts through the real helpers
-    ntr, T = (3000, 60) if thorough else (400, 40)
+    ntr, T = (2000, 60) if thorough else (400, 40)
     scripts = [random_script(rng, T) for _ in range(ntr)]
     recs = simulate(scripts)
     traces = [to_trace(s, r) for s, r in zip(scripts, recs)]
